@@ -21,6 +21,7 @@ func init() {
 			{"C02.params-agree", "recorded chunk-size parameters are the chunker's parameters", 6, c02Params},
 			{"C02.digest-flag", "the recorded digest flag follows the digest in use", 3, c05DigestFlag},
 			{"C02.id-size-same-bytes", "recorded size, id and start describe the bytes Chunker.Next returned", 4, c02SameBytes},
+			{"C02.size-boundaries", "refill, short-tail and hard-cut thresholds of Chunker.Next (partition points)", 4, c02SizeBoundaries},
 			{"C02.split", "Chunker.Next returns through split; split keeps slice, buffer and start in step", 4, c02Split},
 			{"C02.ctor-guards", "NewChunker validates min/avg/max before building the chunker", 4, c02CtorGuards},
 			{"C02.fill", "buffer refill counts every read, uses a fresh buffer and keeps the tail", 3, c02Fill},
@@ -543,4 +544,22 @@ func c02Order(c *Ctx) {
 		}
 		c.verdict(numOK, "ChunkStream:row-under-job-number", fn.Pos(), "each index row is recorded under its job number", "index rows are not recorded under the job number of the chunk they describe")
 	}
+}
+
+// c02SizeBoundaries (E-BOUND): the size thresholds of Chunker.Next.  They fix where a chunk can
+// end independently of the rolling hash: refill while fewer than max bytes are buffered, emit the
+// whole rest when no more than min bytes are left, cut at m = min(max, len(buf)).
+func c02SizeBoundaries(c *Ctx) {
+	fn := c.mustFn("Chunker.Next")
+	if fn == nil {
+		return
+	}
+	c.dumpPartitions()
+	m := "phi([1*Chunker.max]+0|[1*len(Chunker.buf)]+0)"
+	pos := "phi([1*Chunker.min]+0|[1*phi([1*?*ssa.Phi]+1|[1*Chunker.min]+0)]+1)"
+	c.boundaryRule("Chunker.Next", withClosures(fn), []boundarySpec{
+		{"refill-and-cap", map[string]int{"Chunker.max": 1, "len(Chunker.buf)": -1}, 0, 2, "refill / cap iff len(buf) < max"},
+		{"short-tail", map[string]int{"Chunker.min": 1, "len(Chunker.buf)": -1}, -1, 1, "the rest is emitted as one chunk iff len(buf) <= min"},
+		{"hard-cut", map[string]int{m: 1, pos: -1}, 1, 1, "after consuming byte pos the chunk is cut iff pos+1 >= m"},
+	})
 }
